@@ -1,8 +1,9 @@
-"""C10 — interpolation: CANONICAL-FORM CLAUSE FOR ANGLES ONLY.
+"""C10 — interpolation: CANONICAL-FORM AND SHORTEST-ARC CLAUSES FOR ANGLES ONLY.
 
-Decided by interval abstract interpretation: the angle written by SO(2) interpolation, and the angle produced by the
-SO(2) state constructor / normaliser it relies on, lie in [-pi, pi] and are never NaN for all finite inputs and finite
-t.  NOT decided: end-point exactness (t=0, t=1), shortest-path / constant-speed proportionality, unit norm of
+Decided by interval abstract interpretation: (canon) the angle written by SO(2) interpolation, and the angle produced
+by the SO(2) state constructor / normaliser it relies on, lie in [-pi, pi] and are never NaN for all finite inputs and
+finite t; (arc) the signed difference that SO(2) interpolation scales by t lies in [-pi, pi] for all finite inputs,
+canonical or not (a necessary condition of following the shortest arc).  NOT decided: end-point exactness (t=0, t=1), shortest-path / constant-speed proportionality, unit norm of
 interpolated quaternions, symmetry under swapping a and b — numeric statements outside this technique family.
 """
 import math
@@ -53,4 +54,60 @@ def run(ctx, tier):
                                                   {'.'.join(map(str, k[1:])): str(v) for k, v in vals.items()} or 'nothing returned'), loc=b.loc(0)))
     if n < 3:
         r.violations.append(Violation('C10', 'C10.canon', 'oxmpl', 'floor', 'only %d SO(2) angle producers analysed (floor 3)' % n))
-    return [r]
+
+    # ---- C10.arc: the signed difference that is scaled by t is a shortest arc, |diff| <= pi, for ALL finite inputs
+    # (also non-canonical ones).  A necessary condition of "the result lies on a shortest path": a difference outside
+    # [-pi, pi] makes the interior of the motion go the long way round even though both ends are right modulo 2 pi.
+    r2 = RuleResult('C10.arc', 'SO(2) interpolation scales a signed difference confined to [-pi, pi] (all finite inputs, canonical or not)')
+    m = 0
+    for b in sorted(ctx.lib_bodies(), key=lambda x: x.path):
+        adt = (b.j.get('impl_adt') or '').lower()
+        if 'so2' not in adt or b.kind != 'AssocFn' or b.impl_trait != SS or b.name != 'interpolate':
+            continue
+        t_locals = [i for i in range(1, b.arg_count + 1) if b.local_ty(i) == 'f64']
+        seen = []
+
+        def obs(body, st, a, bv, _b=b, _t=t_locals, _seen=seen):
+            if body is not _b:
+                return
+            rv = st['rv']
+            for (x, other) in ((rv['a'], bv), (rv['b'], a)):
+                pl = x.get('copy') or x.get('move')
+                # the operand is (a copy of) the parameter t
+                if pl is not None and not pl['p']:
+                    src = pl['l']
+                    if src in _t or _is_copy_of(ctx, _b, src, _t):
+                        _seen.append((st, other))
+        it2 = Interp(ctx, ctx.core)
+        it2.observe_mul = obs
+        it2.analyze(b)
+        m += 1
+        probs = []
+        if not seen:
+            probs.append('no product with the interpolation parameter found (unrecognised shape)')
+        for (st, iv) in seen:
+            if not iv.within(lo, hi):
+                probs.append('the difference scaled by t ranges over %s: for inputs that are not canonical (or far apart) the motion does not '
+                             'follow the shortest arc' % iv)
+        r2.inst('%s: signed difference scaled by t is %s' % (b.path, sorted({str(iv) for _s, iv in seen})), ok=not probs, site=b.loc(0))
+        for o, pr in enumerate(dict.fromkeys(probs)):
+            r2.violations.append(Violation('C10', 'C10.arc', b.path, 'difference', pr, loc=b.loc(0), ordinal=o))
+    if m < 1:
+        r2.violations.append(Violation('C10', 'C10.arc', 'oxmpl', 'floor', 'no SO(2) interpolation found (floor 1)'))
+    return [r, r2]
+
+
+def _is_copy_of(ctx, b, local, params):
+    """local is a plain copy (possibly through temporaries) of one of the parameter locals"""
+    fn = ctx.fn(b)
+    for _ in range(4):
+        evs = [e for e in fn.events(local) if e.kind == 'assign' and not e.path]
+        if len(evs) != 1 or evs[0].data['k'] != 'assign' or evs[0].data['rv']['k'] != 'use':
+            return False
+        src = evs[0].data['rv']['op'].get('copy') or evs[0].data['rv']['op'].get('move')
+        if src is None or src['p']:
+            return False
+        if src['l'] in params:
+            return True
+        local = src['l']
+    return False
